@@ -379,7 +379,7 @@ def run(ctx):
             rt.inst(key, loc, "ok", {"guard": g})
         else:
             rt.violate(key, "an attempt list is filled without passing `prepare(pos)` (guard: %s): attempts of an earlier position may be reported at a later one" % (g or "none"), loc)
-    rt.require(10, "decision functions")
+    rt.require(7, "decision functions")   # 11 today; the named functions are anchored individually, merged helpers lower the count
 
     # ---- special errors are recorded exactly where their condition holds
     rsp = ctx.rule("R10-SPECIAL", "a special error is recorded only where it is true: `empty_stack` directly in the failure branch of a stack peek / pop, "
